@@ -79,6 +79,141 @@ def _bad_template():
 
 
 # ----------------------------------------------------------------------------------------------
+# finite tables of the anchored code, obtained by *executing* it (regenerated on every run)
+# ----------------------------------------------------------------------------------------------
+def _ranges(nums):
+    out = []
+    for n in sorted(nums):
+        if out and out[-1][1] == n - 1:
+            out[-1][1] = n
+        else:
+            out.append([n, n])
+    return out
+
+
+def _lean_ranges(rs):
+    return '[' + ', '.join('(%d, %d)' % (a, b) for a, b in rs) + ']'
+
+
+TABLE_LIMIT = 1200
+
+
+def probe_tables():
+    """Run valid_status / HTTPError / HTTPRedirect / Response.finalize over 0..TABLE_LIMIT-1."""
+    _configure()
+    from cherrypy.lib import httputil
+    valid, falsy = [], None
+    for n in range(TABLE_LIMIT):
+        try:
+            code = httputil.valid_status(n)[0]
+        except ValueError:
+            continue
+        if code == n:
+            valid.append(n)
+        elif n == 0:
+            falsy = code
+        else:
+            raise common.HarnessError('valid_status(%d) -> %d: not expressible in the model' % (n, code))
+    if falsy is None:
+        raise common.HarnessError('valid_status(0) is rejected: the model assumes the falsy default')
+    he_ok, he_exc, he_fallback = [], [], set()
+    for n in range(TABLE_LIMIT):
+        try:
+            e = cherrypy.HTTPError(n)
+        except cherrypy.HTTPError as e2:
+            he_fallback.add(e2.code)
+            continue
+        except Exception:     # noqa: BLE001
+            he_exc.append(n)
+            continue
+        if e.code != n:
+            raise common.HarnessError('HTTPError(%d).code == %d' % (n, e.code))
+        he_ok.append(n)
+    if len(he_fallback) != 1:
+        raise common.HarnessError('HTTPError fallback codes %s' % sorted(he_fallback))
+    hr_ok = []
+    serving = cherrypy.serving
+    req = _cprequest.Request(cherrypy.lib.httputil.Host('127.0.0.1', 80), cherrypy.lib.httputil.Host('127.0.0.1', 1111))
+    resp = _cprequest.Response()
+    serving.load(req, resp)
+    try:
+        for n in range(TABLE_LIMIT):
+            try:
+                cherrypy.HTTPRedirect('/x', n)
+            except Exception:     # noqa: BLE001
+                continue
+            hr_ok.append(n)
+        hr_known = []
+        for n in hr_ok:
+            serving.load(req, _cprequest.Response())
+            try:
+                cherrypy.HTTPRedirect('/x', n).set_response()
+            except ValueError:
+                continue
+            hr_known.append(n)
+        nobody = []
+        for n in valid:
+            r = _cprequest.Response()
+            serving.load(req, r)
+            r.status = n
+            r.body = [b'x']
+            r.finalize()
+            if b''.join(r.body) == b'':
+                nobody.append(n)
+    finally:
+        serving.clear()
+    return {'valid': _ranges(valid), 'falsy': falsy, 'he_ok': _ranges(he_ok), 'he_exc': _ranges(he_exc),
+            'he_fallback': sorted(he_fallback)[0], 'hr_ok': _ranges(hr_ok), 'hr_known': hr_known,
+            'nobody': _ranges(nobody), 'hookpoints': list(_cprequest.hookpoints)}
+
+
+def tables(ctx=None):
+    t = probe_tables()
+    if t['hookpoints'] != POINT_NAMES:
+        raise common.HarnessError('hookpoints changed: %s' % t['hookpoints'])
+    src = """/-!
+  GENERATED by harness/pipeline_common.py (tables) from the live modules under the repository on every
+  run of the C09 / C01 checks - do not edit.  Every entry was obtained by executing the real function
+  over 0..%d: `httputil.valid_status`, the `HTTPError` / `HTTPRedirect` constructors,
+  `HTTPRedirect.set_response`, `Response.finalize`.  Ranges are inclusive.
+-/
+namespace CpModel.Gen.Pipeline
+
+/-- codes `valid_status` accepts (and returns unchanged) -/
+def validStatusRanges : List (Nat × Nat) := %s
+
+/-- what `valid_status` makes of a falsy status (`None`, `''`, `0`) -/
+def falsyStatusCode : Nat := %d
+
+/-- `HTTPError(c)` is constructed with code `c` -/
+def httpErrorOkRanges : List (Nat × Nat) := %s
+
+/-- `HTTPError(c)` raises a plain `ValueError` instead -/
+def httpErrorExcRanges : List (Nat × Nat) := %s
+
+/-- everything else: `valid_status` rejects `c`, the constructor re-raises its own class with this code -/
+def httpErrorFallbackCode : Nat := %d
+
+/-- `HTTPRedirect(url, c)` is constructed (otherwise `ValueError`) -/
+def httpRedirectOkRanges : List (Nat × Nat) := %s
+
+/-- codes for which `HTTPRedirect.set_response` does not raise -/
+def redirectKnownCodes : List Nat := %s
+
+/-- valid codes for which `Response.finalize` drops the body -/
+def noBodyRanges : List (Nat × Nat) := %s
+
+/-- `cherrypy._cprequest.hookpoints` -/
+def hookpointCount : Nat := %d
+
+end CpModel.Gen.Pipeline
+""" % (TABLE_LIMIT - 1, _lean_ranges(t['valid']), t['falsy'], _lean_ranges(t['he_ok']), _lean_ranges(t['he_exc']),
+       t['he_fallback'], _lean_ranges(t['hr_ok']), '[' + ', '.join(map(str, t['hr_known'])) + ']',
+       _lean_ranges(t['nobody']), len(t['hookpoints']))
+    return {'CpModel/Gen/PipelineTables.lean': src}
+
+
+# ----------------------------------------------------------------------------------------------
 # the journal of one run
 # ----------------------------------------------------------------------------------------------
 class Run:
